@@ -50,6 +50,9 @@ func getProfile(name string, seed int64) *Profile {
 		p.Colls = 1
 		p.Name = "algebra"
 		p.Invalid = 0.02
+	case "tzwitness": // witness of the known finding on sub-minute zone offsets west of UTC
+		p.Colls = 1
+		p.Name = "tzwitness"
 	case "ids": // C12
 		p.Colls = 3
 		p.MaxDocs = 6
@@ -112,6 +115,11 @@ func generate(p *Profile, seed int64) ([]E, *Universe) {
 		return g.HistoryBulk(bulkSizes[int(seed%int64(len(bulkSizes)))]), g.U
 	case p.Name == "bulkbig":
 		return g.HistoryBulk(bulkSizesBig[int(seed%int64(len(bulkSizesBig)))]), g.U
+	case p.Name == "tzwitness":
+		c := g.colls[0]
+		d := AObj("_id", AStr(g.ids[0]), "t", ATime(2, len(zoneTable)-1))
+		return []E{{"op": "CreateCollection", "c": c}, {"op": "Insert", "c": c, "docs": []interface{}{d}},
+			{"op": "FindById", "c": c, "id": B(g.ids[0])}}, g.U
 	case p.Name == "algebra":
 		return g.HistoryAlgebra(), g.U
 	case p.Name == "io":
